@@ -60,6 +60,17 @@ def budgets():
     out.append({"history": "up-migrate", "name": "csv, settings with a commented-out merchants_file", "files": f})
     f = {"conf/settings.yaml": SETTINGS_CSV, "conf/merchant_categories.csv": CSV_RULES, "data/s.csv": STMT}
     out.append({"history": "up-migrate", "name": "csv, config directory named conf", "files": f, "confdir": "conf"})
+    # an unreferenced hand-written merchants.rules that holds no rule (only a variable and a transform), or does not load at all
+    for label, txt in (("zero-rules", "# hand written, work in progress\nbig = amount > 100\nfield.description = trim(field.description)\n"),
+                       ("unloadable", "# hand written\n[Precious\nmatch: contains(\"PRECIOUS\")\ncategory: Keep\n")):
+        f = {"config/settings.yaml": SETTINGS_CSV, "config/merchant_categories.csv": CSV_RULES, "config/merchants.rules": txt, "data/s.csv": STMT}
+        out.append({"history": "up-migrate", "name": f"csv, existing {label} merchants.rules", "files": f})
+    # the layout migration of a budget that went through the CSV migration first (two-step history)
+    for outp in (0, 1):
+        f = {"config/settings.yaml": SETTINGS_CSV, "config/merchant_categories.csv": CSV_RULES, "data/s.csv": STMT}
+        if outp:
+            f["output/old_report.html"] = "<html>old report</html>\n"
+        out.append({"history": "layout", "name": f"after up --migrate, output={outp}", "files": f, "prepare": ["up", "--migrate", "--summary"]})
     for st in ("without-merchants_file", "with-merchants_file", "absent"):
         for bak in (0, 1):
             for tgt in (0, 1):
@@ -189,7 +200,7 @@ def judge(history, before_files, before_class, root):
     """Oracle on one resulting tree (root is consumed: the re-run happens in place)."""
     viol = []
     tree = snapshot(root)
-    contents = list(tree.values())
+    contents = [c.replace(os.path.realpath(root).encode(), b"<ROOT>").replace(root.encode(), b"<ROOT>") for c in tree.values()]
     for p, txt in before_files.items():
         if txt is None:
             continue
@@ -272,29 +283,43 @@ def check_case(case):
 
 
 def _check_case(case, b):
-    history, files = b["history"], b["files"]
+    history, files0 = b["history"], b["files"]
     only_plan = case.get("plan")
     viol = []
     evals = 0
+    prepare = b.get("prepare")
+
+    def materialise(fs):            # noqa: shadows the module function on purpose - every tree of this case goes through the preparation
+        root = globals()["materialise"](fs)
+        if prepare:
+            # an earlier, fault-free command the budget went through (run in place: paths it wrote belong to THIS tree)
+            proc.run_cli(prepare, cwd=root)
+        return root
+
     # baseline: classification before the command
-    root0 = materialise(files)
+    root0 = materialise(files0)
     before_class = classify(root0)
     init_tree = snapshot(root0)
+    # what the user has in the tree the faulted command starts from
+    files = ({p: c.decode("utf-8", "replace").replace(os.path.realpath(root0), "<ROOT>").replace(root0, "<ROOT>") for p, c in init_tree.items()}
+             if prepare else files0)
     shutil.rmtree(root0, ignore_errors=True)
     # reference run under the interposer, and without it (transparency)
-    root1 = materialise(files)
+    root1 = materialise(files0)
     r1, info = run_history(history, root1, plan=None, intercept=True)
     done_tree = snapshot(root1)
-    root2 = materialise(files)
+    root2 = materialise(files0)
     r2, _ = run_history(history, root2, plan=None, intercept=False)
     plain_tree = snapshot(root2)
     shutil.rmtree(root2, ignore_errors=True)
-    if {p: c for p, c in done_tree.items()} != plain_tree or r1["exit"] != r2["exit"]:
+    def _norm(tree, root):          # file contents may legitimately mention the tree's own location
+        return {p: c.replace(os.path.realpath(root).encode(), b"<ROOT>").replace(root.encode(), b"<ROOT>") for p, c in tree.items()}
+    if _norm(done_tree, root1) != _norm(plain_tree, root2) or r1["exit"] != r2["exit"]:
         shutil.rmtree(root1, ignore_errors=True)
         raise H.HarnessError(f"interposer is not transparent for {b['name']}: {sorted(set(done_tree) ^ set(plain_tree))} exits {r1['exit']}/{r2['exit']} "
                              f"stderr={r1['stderr'][-300:]}")
     touched = {e["path"] for e in info["log"]} | {e["src"] for e in info["log"] if "src" in e}
-    changed = {p for p in set(done_tree) | set(init_tree) if done_tree.get(p) != init_tree.get(p)}
+    changed = {p for p in set(done_tree) | set(init_tree) if _norm(done_tree, root1).get(p) != _norm(init_tree, root0).get(p)}
     unowned = [p for p in changed if not any(p == t or p.startswith(t + os.sep) or t.startswith(p) for t in touched)]
     if unowned:
         shutil.rmtree(root1, ignore_errors=True)
@@ -311,7 +336,7 @@ def _check_case(case, b):
     if only_plan == {}:
         plans = []
     for plan in plans:
-        root = materialise(files)
+        root = materialise(files0)
         try:
             r, inf = run_history(history, root, plan=plan, intercept=True)
             evals += 1
